@@ -491,9 +491,12 @@ def bfs_tree(ctx, modname, cname, fn0, kind, excl):
             other_none = [n_ for n_ in au.walk(fors[0] if fors else fn) if (isinstance(n_, ast.Constant) and n_.value is None) or
                           (isinstance(n_, ast.Name) and n_.id == "NoneType")] if not nn else []
             odd_conds = [e_ for e_, p_ in conds if cc in au.names(e_) and not hr.flag_test(e_, p_) and _is_none_cmp(e_) is None] if not nn else []
-            pred_conds = [e_ for e_, p_ in conds if any(isinstance(n_, ast.Call) and au.call_tail(n_) in ("is_edge_on_border", "is_vertex_on_border", "face_to_cells",
-                                                                                                          "edge_to_faces", "direct_face", "len")
-                                                        for n_ in ast.walk(e_))] if not nn else []
+            pred_conds = [e_ for e_, p_ in conds if any(isinstance(n_, ast.Call) and au.call_tail(n_) not in (excl[1],) for n_ in ast.walk(e_))
+                          or any(isinstance(n_, ast.Attribute) and ("bound" in n_.attr or "border" in n_.attr) for n_ in ast.walk(e_))
+                          or any(isinstance(n_, ast.Name) and isinstance(F.definition(n_.id, c), (ast.Call, ast.SetComp, ast.Set)) for n_ in ast.walk(e_)
+                                 if isinstance(e_, ast.Compare) and isinstance(e_.ops[0], (ast.In, ast.NotIn)))] if not nn else []
+            if not nn:
+                other_none = other_none + [n_ for n_ in au.walk(loop) if isinstance(n_, ast.Constant) and n_.value is None and isinstance(au.parent(n_), ast.Compare)]
             if not nn and (other_none or odd_conds or pred_conds or F.opaque(fors[0] if fors else fn, {cc})):
                 ctx.undecided("C10-X1", s, f"how the neighbour returned by {au.call_tail(d)} is tested for None is not recognised", "")
             else:
@@ -580,7 +583,7 @@ def bfs_tree(ctx, modname, cname, fn0, kind, excl):
                         if not okd and upd:
                             okd = None          # the table is updated, but not in the form / at the place the rule reads
                         ivals, found = F.initial_values(DIST, loop)
-                        inf_init = any(F.is_inf(x) or (isinstance(order.fold_const(x), (int, float)) and order.fold_const(x) >= 1e100) for x in ivals) or DIST in g2s.tables
+                        inf_init = any(F.is_inf(x) or (isinstance(order.fold_const(x), (int, float)) and order.fold_const(x) >= 1e9) for x in ivals) or DIST in g2s.tables
                         if okd and not inf_init:
                             # contradicted only by a table whose whole initial content is a recognised finite constant
                             okd = False if found and ivals and all(isinstance(x, ast.Constant) and isinstance(x.value, (int, float))
@@ -1108,6 +1111,25 @@ def _eval_bool(e, env, a, b_):
     return env[k]
 
 
+def _switches_are_plain(ctx):
+    """EdgeSpanningTree.__init__ stores its arguments avoid_boundary / avoid_edges unchanged in self._avoidbound / self._avoidedges (a constructor that
+    folds another condition into them - `avoid_boundary and not polyline` - changes what the later tests mean)"""
+    try:
+        init = ctx.repo.func(EDGE, "EdgeSpanningTree.__init__")
+    except Exception:
+        return False
+    ps = set(au.params(init, skip_self=True))
+    seen_ = 0
+    for st in au.stmts(init.body):
+        if isinstance(st, (ast.Assign, ast.AnnAssign)) and st.value is not None:
+            for t in au.assign_targets(st):
+                if au.is_self_attr(t) and t.attr in ("_avoidbound", "_avoidedges"):
+                    seen_ += 1
+                    if not (isinstance(st.value, ast.Name) and st.value.id in ps):
+                        return False
+    return seen_ >= 2
+
+
 def avoid_edge_predicate(ctx):
     """avoid(a, b) == (avoid_edges given and edge in it) or (avoid_boundary and not a polyline and edge on border)"""
     fn0 = ctx.repo.func(EDGE, "EdgeSpanningTree._avoid_edge")
@@ -1145,6 +1167,9 @@ def avoid_edge_predicate(ctx):
                 bad = bad or env
     except _Unknown as ex:
         ctx.undecided("C10-X1", site, "_avoid_edge contains a condition the rule does not know", str(ex))
+        return
+    if bad is not None and not _switches_are_plain(ctx):
+        ctx.undecided("C10-X1", site, "the switches tested by _avoid_edge are not the plain constructor arguments", "")
         return
     ctx.check(bad is None, "C10-X1", site,
               "_avoid_edge is not `(avoid_edges given and edge in avoid_edges) or (avoid_boundary and not polyline and edge on border)`",
@@ -1273,6 +1298,10 @@ def c1_computed(ctx):
                     if au.const(st.value) is True:
                         outer_ = q.split(".<locals>.")[0].rsplit(".", 1)[-1]
                         after_compute = any(isinstance(c_.func, ast.Attribute) and c_.func.attr == "compute" and F_before_(f, c_, st) for c_ in au.calls(f))
+                        if f.name not in ("__init__", "traverse", "__call__", "edges", "compute", "build_tree_as_polyline") and not hf_flat.is_private(f.name) \
+                                and outer_ not in ("compute",) and not after_compute:
+                            ctx.undecided("C10-C1", ctx.site(modname, f, st), "`_computed = True` in a method the rule does not know", "")
+                            continue
                         ctx.check(f.name == "compute" or hf_flat.is_private(f.name) or outer_ == "compute" or hf_flat.is_private(outer_) or after_compute,
                                   "C10-C1", ctx.site(modname, f, st),
                                   "`_computed = True` outside a compute method",
@@ -1459,6 +1488,10 @@ def k1_kruskal(ctx):
         ctx.ok(R, s, "if not uf.connected(a, b)")
     elif len(guard) == 1 and guard[0][1]:
         ctx.fail(R, s, "union is guarded by `uf.connected(a, b)` (inverted)", "an edge closing a cycle must be rejected, every other admissible edge accepted")
+    elif len(guard) == 1 and not guard[0][2] and ({A, B} & (hr.closure(F.deps(), set().union(*[au.names(a_) for a_ in guard[0][0].args]) if isinstance(guard[0][0], ast.Call) else set()))
+                                                   or any(isinstance(a_, ast.Name) and {A, B} & hr.closure(F.deps(), {a_.id}) for a_ in un.args) or
+                                                   any(not isinstance(a_, ast.Name) for a_ in (guard[0][0].args if isinstance(guard[0][0], ast.Call) else []))):
+        ctx.undecided(R, s, "the pair tested for connectivity and the pair united are related in a way the rule does not follow", "")
     elif len(guard) == 1 and not guard[0][2]:
         ctx.fail(R, s, "the connectivity test is not on the pair that is united", "")
     elif not guard and not rest and not isinstance(au.parent(un), ast.Expr):
@@ -1514,7 +1547,12 @@ def k1_kruskal(ctx):
     LIST = it.id if isinstance(it, ast.Name) else None
     keyinfo = None
     sort_node = None
-    if isinstance(it, ast.Call) and au.call_tail(it) == "sorted" and it.args:
+    if isinstance(it, ast.Call) and au.call_tail(it) == "argsort" and ends_ok is True:
+        ctx.fail(R, site, "the edge list scanned by Kruskal's loop is the result of argsort",
+                 "argsort returns positions in the candidate list, not edge ids: with a filtered candidate list the loop scans other edges")
+    elif isinstance(it, ast.Call) and au.call_tail(it) == "argsort":
+        ctx.undecided(R, site, "Kruskal's loop scans positions given by argsort: how they are turned into edge ids is not recognised", "")
+    elif isinstance(it, ast.Call) and au.call_tail(it) == "sorted" and it.args:
         sort_node = it
     elif LIST:
         d = b.reaching(LIST, lp)
@@ -1582,7 +1620,9 @@ def k1_kruskal(ctx):
         if not key and sarg is not None and not (isinstance(sarg, ast.Name) or (isinstance(sarg, ast.Call) and au.call_tail(sarg) in ("range", "list", "set"))
                                                  or isinstance(sarg, ast.Attribute)):
             ctx.undecided(R, S(sort_node), "Kruskal's loop scans a sorted sequence the rule does not recognise (decorated entries ..)", "")
-        elif not key and not isinstance(lp.target, ast.Name):
+        elif not key and (not isinstance(lp.target, ast.Name) or
+                          (LIST and isinstance(F.definition(LIST, sort_node if isinstance(sort_node, ast.stmt) else au.enclosing_stmt(sort_node)), (ast.ListComp, ast.GeneratorExp))
+                           and isinstance(F.definition(LIST, sort_node if isinstance(sort_node, ast.stmt) else au.enclosing_stmt(sort_node)).elt, (ast.Tuple, ast.List)))):
             ctx.undecided(R, S(sort_node), "Kruskal's loop scans a sorted sequence of compound entries", "")
         elif not key:
             ctx.fail(R, S(sort_node), "edge list is sorted without the weight callable", "the edges are ordered by their ids, not by weight")
@@ -1730,6 +1770,8 @@ def _k1_admissible(ctx, F, fn0, LIST, lp, sort_node):
     want = {(ab, pl): ("filtered" if (ab and not pl) else "all") for ab, pl in res}
     if res == want:
         ctx.ok(R, site, "border exclusion agrees with _avoid_edge on the 4 switch combinations")
+    elif all(v in ("all", "filtered", "inverted") for v in res.values()) and not _switches_are_plain(ctx):
+        ctx.undecided(R, site, "the switches tested by the selection of the admissible edges are not the plain constructor arguments", "")
     elif all(v in ("all", "filtered", "inverted") for v in res.values()):
         ctx.fail(R, site, "admissible edges are not `all edges, or the non-border edges exactly when avoid_boundary is set on a non-polyline`",
                  f"selection per (avoid_boundary, polyline): {res} - the BFS tree excludes an edge iff avoid_boundary and not polyline and is_edge_on_border")
@@ -1766,6 +1808,22 @@ def _edge_selection(val, env):
     return "other"
 
 
+def _is_none_like(F, e, at):
+    """None, or a name bound to None (a local / a module constant such as NO_PARENT = None)"""
+    if hr.is_none(e):
+        return True
+    if isinstance(e, ast.Name):
+        try:
+            r = F.resolve(e, at)
+        except Exception:
+            r = e
+        if hr.is_none(r):
+            return True
+        mc = F.module_constants().get(e.id)
+        return mc is not None and hr.is_none(mc)
+    return False
+
+
 def _tab_base(e):
     while isinstance(e, ast.Subscript):
         e = e.value
@@ -1793,9 +1851,14 @@ def k2_orientation(ctx, F, fn0, NB, kruskal_loop):
         if q_method(c_, Q, ("append", "appendleft")) and F.before(c_, loop) and not F.inside(c_, loop) and len(c_.args) == 1 \
                 and isinstance(c_.args[0], ast.Tuple) and len(c_.args[0].elts) == 2:
             e0, e1 = c_.args[0].elts
-            if hr.is_none(e1) or (au.is_self_attr(e1, "root") and not au.is_self_attr(e0, "root")):
+            n0_, n1_ = _is_none_like(F, e0, c_), _is_none_like(F, e1, c_)
+            if n1_ and not n0_:
                 slots.add(1)
-            elif hr.is_none(e0) or (au.is_self_attr(e0, "root") and not au.is_self_attr(e1, "root")):
+            elif n0_ and not n1_:
+                slots.add(0)
+            elif au.is_self_attr(e1, "root") and not au.is_self_attr(e0, "root"):
+                slots.add(1)
+            elif au.is_self_attr(e0, "root") and not au.is_self_attr(e1, "root"):
                 slots.add(0)
     vi = 0
     if slots == {0}:
@@ -1985,6 +2048,14 @@ def f1_forests(ctx):
                 if marg is None or F.table_key(marg, made[0]) != "self.mesh":
                     (why if marg is not None and isinstance(marg, ast.Attribute) and au.is_self_attr(marg) and marg.attr != "mesh" else unknown).append("it is not built on self.mesh")
                 rarg = amap.get(ps[1]) if len(ps) > 1 else None
+                if isinstance(rarg, ast.Name):
+                    d__ = F.definition(rarg.id, made[0])
+                    while isinstance(d__, ast.Call) and au.call_tail(d__) in ("int", "index") and len(d__.args) == 1:
+                        d__ = d__.args[0]
+                    if isinstance(d__, ast.Name):
+                        rarg = d__
+                while isinstance(rarg, ast.Call) and au.call_tail(rarg) in ("int", "index") and len(rarg.args) == 1:
+                    rarg = rarg.args[0]
                 if not (isinstance(rarg, ast.Name) and F.root(rarg.id, made[0]) == x):
                     if rarg is None:
                         why.append("its root is not the unvisited element (a random root is used)")
@@ -2074,6 +2145,9 @@ def t1_traverse(ctx):
     b = F.b
     qs = deque_names(fn)
     loops = [st for st in au.stmts(fn.body) if isinstance(st, ast.While) and qs & au.names(st)]
+    if len([st for st in au.stmts(fn.body) if isinstance(st, (ast.While, ast.For)) and any(isinstance(n_, ast.Yield) for n_ in au.walk(st))]) > 1:
+        ctx.undecided(R, site, "traverse has several loops that yield", "")
+        return
     if len(qs) != 1 or len(loops) != 1:
         ctx.undecided(R, site, "work-list loop of traverse not recognised", "")
         return
@@ -2082,12 +2156,15 @@ def t1_traverse(ctx):
     seeds = [c for c in au.calls(fn) if q_method(c, Q, ("append", "appendleft")) and F.before(c, loop) and not F.inside(c, loop)]
     ni = 0          # slot of the node in the queued pairs (the other slot holds its parent)
     seed_t = seeds[0].args[0] if len(seeds) == 1 and len(seeds[0].args) == 1 and isinstance(seeds[0].args[0], ast.Tuple) and len(seeds[0].args[0].elts) == 2 else None
-    if seed_t is not None and au.is_self_attr(seed_t.elts[1], "root") and hr.is_none(seed_t.elts[0]):
+    if seed_t is not None and au.is_self_attr(seed_t.elts[1], "root") and _is_none_like(F, seed_t.elts[0], seeds[0]):
         ni = 1
-    if seed_t is not None and au.is_self_attr(seed_t.elts[ni], "root") and hr.is_none(seed_t.elts[1 - ni]) and F.unconditional(seeds[0], loop):
+    if seed_t is not None and au.is_self_attr(seed_t.elts[ni], "root") and _is_none_like(F, seed_t.elts[1 - ni], seeds[0]) and F.unconditional(seeds[0], loop):
         ctx.ok(R, site, "queue seeded with (self.root, None)")
     elif seed_t is not None and all(au.is_self_attr(x_, "root") or isinstance(x_, ast.Constant) for x_ in seed_t.elts) and F.unconditional(seeds[0], loop):
         ctx.fail(R, site, "traverse is not seeded with (self.root, None)", "")
+    elif seed_t is not None:
+        ctx.undecided(R, site, "the seeding of traverse is not recognised", "")
+        return
     else:
         ctx.undecided(R, site, "the seeding of traverse is not recognised", "")
     # which end is popped for BFS / DFS: every `q.pop()` / `q.popleft()` reachable in the loop with the conditions on `order`
@@ -2114,7 +2191,7 @@ def t1_traverse(ctx):
     for c in au.calls(loop):
         if q_method(c, Q, ("pop", "popleft")):
             cs = []
-            for e, p in sk.atoms(sk.path_conds(c, stop=loop)):
+            for e, p in sk.atoms(sk.path_conds(c, stop=loop)) + [x_ for x_ in sk.atoms(sk.path_conds(loop)) if order_param in au.names(b.resolve(x_[0], at=loop, keep=(order_param,)))]:
                 ov = order_value(e, p, c)
                 if ov is None:
                     unknown = True
@@ -2159,7 +2236,7 @@ def t1_traverse(ctx):
         taken = [m for cs, m, c in alts if all(cv[isb] for cv in cs)]
         res[nm] = taken[0] if len(taken) == 1 else None
     pushes = [c for c in au.calls(loop) if q_method(c, Q, ("append", "appendleft"))]
-    right = all(c.func.attr == "append" for c in pushes) and all(c.func.attr == "append" for c in seeds)
+    right = bool(pushes) and all(c.func.attr == "append" for c in pushes) and all(c.func.attr == "append" for c in seeds)
     if res == {"BFS": "popleft", "DFS": "pop"} and right:
         ctx.ok(R, site, "BFS -> popleft, DFS -> pop")
     elif res == {"BFS": "pop", "DFS": "popleft"} and right:
@@ -2461,9 +2538,17 @@ def n1_none_defaults(ctx):
             # the requested root reaches self.root unchanged when given
             given = []
             unknown = False
+            Fi__ = _flat(ctx, modname, fn_orig)
             for st in root_stores:
                 conds = sk.atoms(sk.path_conds(st))
                 v = st.value
+                if isinstance(v, ast.Name) and v.id != p_:
+                    try:
+                        d__ = Fi__.b.reaching(v.id, st)
+                    except Exception:
+                        d__ = None
+                    if isinstance(d__, ast.AST):
+                        v = d__                     # self.root = root  with  root = <value> bound just before
                 if isinstance(v, ast.IfExp):
                     ta = sk.atoms([(v.test, True)])
                     if len(ta) == 1 and _is_none_test(ta[0][0], p_):
